@@ -6,6 +6,7 @@ import (
 	"context"
 	"encoding/json"
 	"fmt"
+	"os"
 	"strings"
 	"sync"
 	"sync/atomic"
@@ -88,6 +89,11 @@ func genC01(t *rapid.T, shape string) *c01Case {
 		return c
 	}
 	c.YieldUs = rapid.SampledFrom([]int{0, 50, 500}).Draw(t, "yield")
+	if c.Opts.Replicas >= 2 && os.Getenv("VERIF_C01_READREPAIR") != "" {
+		// exploratory dimension (not part of the registered check): read-repair with a delay between gathering
+		// the versions and repairing
+		c.Opts.ReadRepair = rapid.Bool().Draw(t, "readRepair")
+	}
 	nc := rapid.IntRange(2, 6).Draw(t, "clients")
 	for i := 0; i < nc; i++ {
 		n := rapid.IntRange(3, 15).Draw(t, "steps")
@@ -304,6 +310,10 @@ func runC01(c *c01Case) (v *vcommon.Violation, labels []string, nontrivial, inco
 		d := time.Duration(c.YieldUs) * time.Microsecond
 		verifhook.Set("put.afterCheck", func(args ...string) { time.Sleep(d) })
 		defer verifhook.Set("put.afterCheck", nil)
+		if c.Opts.ReadRepair {
+			verifhook.Set("get.afterLookup", func(args ...string) { time.Sleep(d) })
+			defer verifhook.Set("get.afterLookup", nil)
+		}
 	}
 	var mu sync.Mutex
 	var hist []c01Event
